@@ -26,6 +26,8 @@ CALLS = {   # name -> (call dict, abstract declared files, abstract outputs)
     "match": ({"op": "match", "n": 3}, ["lib3", "nll", "fish"], ["cm", "tmp"]),
     "combine": ({"op": "combine", "n": 3}, ["lib3", "cm"], ["final", "tmp"]),
 }
+# further earlier calls, used in hand-written histories only (not part of Hist.tla's enumeration): a large library generated earlier in the same process
+EXTRA = {"gen6": ({"op": "gen", "runname": "core_maths", "n": 6}, [], ["lib6"])}
 ABSTRACT = ["lib2", "lib3", "lib4", "libext", "libsub", "nll", "fish", "cm", "final", "tmp", "otherout", "rounds3", "nllprev"]
 # concrete declared inputs / outputs of the observed calls (paths relative to the scratch root)
 LIBC = "esr/function_library/core_maths/"
@@ -124,6 +126,8 @@ def run(tier, replay=None):
         jobs.append((X, [X], False))                       # the identical call repeated
         if tier == "thorough":
             jobs.append((X, [X, X], False))
+    jobs += [("gen4", ["gen6"], False)] + ([("gen3", ["gen6"], False), ("gen3", ["gen6", "genext"], False)] if tier == "thorough" else [])
+    ALLC = dict(CALLS, **EXTRA)
     # ---- runs A (history then X), in parallel batches
     fresh_cache = {}
     nproc = 8
@@ -134,14 +138,14 @@ def run(tier, replay=None):
         for X, hist, prem in batch:
             sA = _clone(s0)
             scr.append(sA)
-            pre = [c for c in hist if CALLS[c][0].get("ranks")]
+            pre = [c for c in hist if ALLC[c][0].get("ranks")]
             for c in pre:          # an earlier completed multi-rank run of a stage, in its own processes
-                cd = CALLS[c][0]
+                cd = ALLC[c][0]
                 rr = coord.run_ranks(cd["ranks"], "harness.targets:fit_stages", ("gauss", "d.txt", cd.get("run", "r"), os.path.join(sA, "data_r"), "core_maths", cd["n"], [cd["op"]], 0,
                                                                                  {"fit": {"tmax": 120}, "fisher": {"tmax": 120}, "match": {"tmax": 120}}), sA, timeout=1800)
                 if rr["status"] != "ok":
                     raise RuntimeError("pre-history stage run failed: %s" % rr["detail"])
-            calls = [CALLS[c][0] for c in hist if c not in pre] + [CALLS[X][0]]
+            calls = [ALLC[c][0] for c in hist if c not in pre] + [CALLS[X][0]]
             args.append((calls, os.path.join(sA, "hist_out.json")))
         procs = [pool.parallel("harness.history:run_history", [a], sc) for a, sc in zip(args, scr)] if False else None
         # one process per history, all of the batch concurrently
@@ -190,7 +194,7 @@ def run(tier, replay=None):
             for rel in DECL[X]:
                 ids.setdefault(rel, len(ids) + 1)
             initial = [os.path.exists(os.path.join(s0, f)) for f, _ in sorted(ids.items(), key=lambda kv: kv[1])]
-            trace = [{"ev": "header", "observed": len([c for c in hist if not CALLS[c][0].get("ranks")]) + 1, "declared": [ids[x] for x in DECL[X]], "nfiles": len(ids), "initial": initial}]
+            trace = [{"ev": "header", "observed": len([c for c in hist if not ALLC[c][0].get("ranks")]) + 1, "declared": [ids[x] for x in DECL[X]], "nfiles": len(ids), "initial": initial}]
             for e in ev:
                 t = {"ev": e["ev"], "call": e["call"], "f": ids[e["f"]], "mode": e.get("mode", "-"), "existed": bool(e.get("existed", False))}
                 trace.append(t)
